@@ -877,6 +877,15 @@ func (i valueImporter) importValue(value cadence.Value, expectedType sema.Type) 
 			getCompositeFieldValues(v),
 		)
 	case cadence.Resource:
+		// A resource must not get inserted into a container of a non-resource type,
+		// as the elements of such a container get copied.
+		if expectedType != nil && !expectedType.IsResourceType() {
+			return nil, errors.NewDefaultUserError(
+				"cannot import resource of type %s as non-resource type %s",
+				v.ResourceType.ID(),
+				expectedType.QualifiedString(),
+			)
+		}
 		return i.importCompositeValue(
 			common.CompositeKindResource,
 			v.ResourceType.Location,
